@@ -49,10 +49,16 @@ pub mod nd {
         m.len() == a && forall |i: int| 0 <= i < a ==> rect2(#[trigger] m[i], b, c)
     }
 
+    /// the (rows, cols) shape of an owned matrix and "is `T::zero()`" (both given meaning per element type in later preludes)
+    pub uninterp spec fn gdim2<T>(a: Array2<T>) -> (int, int);
+    pub uninterp spec fn is_zero_elem<T>(x: T) -> bool;
     impl<T> Array2<T> {
-        /// `Array2::zeros((r, c))`: shape (r, c) (the fill value is irrelevant to the proofs)
+        /// `Array2::zeros((r, c))`: shape (r, c), every element `T::zero()`
         #[verifier::external_body]
-        pub fn zeros(shape: (usize, usize)) -> (r: Self) ensures rect2(a2(r), shape.0 as int, shape.1 as int) { unimplemented!() }
+        pub fn zeros(shape: (usize, usize)) -> (r: Self)
+            ensures rect2(a2(r), shape.0 as int, shape.1 as int), gdim2(r) == (shape.0 as int, shape.1 as int),
+                forall |i: int, j: int| 0 <= i < shape.0 && 0 <= j < shape.1 ==> is_zero_elem(#[trigger] a2(r)[i][j])
+        { unimplemented!() }
         #[verifier::external_body]
         pub fn view<'a>(&'a self) -> (r: ArrayView2<'a, T>) ensures v2(r) == a2(*self) { unimplemented!() }
     }
